@@ -9,3 +9,7 @@ import HypnoModel.Model.ParMap
 import HypnoModel.Drv.C13
 import HypnoModel.Props.C17
 import HypnoModel.Props.C13
+import HypnoModel.Model.Topology
+import HypnoModel.Model.Tiling
+import HypnoModel.Drv.C08
+import HypnoModel.Props.C08
